@@ -1,0 +1,45 @@
+//go:build verif
+
+// Contracts for package merge, read by /verif/engine (govc). Comment-only.
+package merge
+
+// jcovers(e, ind, lo, hi): e is the JSON image (numbers are float64, [2]int is a two-element array) of a
+// compressed reorder entry that stands for ind[lo:hi] in the documented run encoding [first,count]:
+// -1, a plain index, or [first,count] with count >= 2 consecutive indices.
+//@ pred jcovers(e interface{}, ind map[int]int, lo int, hi int) = (e is float64 && hi == lo+1 && ind[lo] >= -1 && e.(float64) == toreal(ind[lo])) || (e is []interface{} && len(e.([]interface{})) == 2 && e.([]interface{})[0] is float64 && e.([]interface{})[1] is float64 && hi-lo >= 2 && ind[lo] >= 0 && e.([]interface{})[0].(float64) == toreal(ind[lo]) && e.([]interface{})[1].(float64) == toreal(hi-lo) && (forall t int :: lo <= t && t < hi ==> ind[t] == ind[lo]+(t-lo)))
+
+//@ func uncompressIndices
+//@   ghostparam ind map[int]int         // the index list that was compressed
+//@   ghostparam pos map[int]int         // pos[e] = first position covered by entry e
+//@   ghostparam n int
+//@   requires indices is []interface{}
+//@   requires pos[0] == 0 && pos[len(indices.([]interface{}))] == n
+//@   requires forall e int :: { indices.([]interface{})[e] } 0 <= e && e < len(indices.([]interface{})) ==> pos[e] < pos[e+1] && jcovers(indices.([]interface{})[e], ind, pos[e], pos[e+1])
+//@   assigns nothing
+//@   ensures err == nil
+//@   ensures len(result) == n && (forall k int :: 0 <= k && k < n ==> result[k] == ind[k])
+//@   loop 1 invariant -1 <= rangeindex && rangeindex < len(compressedIndices)
+//@   loop 1 invariant len(uncompressedIndices) == pos[rangeindex+1] && (uncompressedIndices == nil || fresh(uncompressedIndices))
+//@   loop 1 invariant forall k int :: 0 <= k && k < len(uncompressedIndices) ==> uncompressedIndices[k] == ind[k]
+//@   loop 1 decreases len(compressedIndices) - rangeindex
+//@   loop 2 invariant pos[rangeindex+1] <= len(uncompressedIndices) && len(uncompressedIndices) <= pos[rangeindex+2]
+//@   loop 2 invariant i == start + toreal(len(uncompressedIndices) - pos[rangeindex+1])
+//@   loop 2 invariant uncompressedIndices == nil || fresh(uncompressedIndices)
+//@   loop 2 invariant forall k int :: 0 <= k && k < len(uncompressedIndices) ==> uncompressedIndices[k] == ind[k]
+//@   loop 2 decreases pos[rangeindex+2] - len(uncompressedIndices)
+
+//@ pred scalarKind(v interface{}) = v is bool || v is int || v is int8 || v is int16 || v is int32 || v is int64 || v is uint || v is uint8 || v is uint16 || v is uint32 || v is uint64 || v is float32 || v is float64 || v is string
+
+//@ func isRemoved
+//@   assigns nothing
+//@   ensures result <==> (delta is []interface{} && len(delta.([]interface{})) == 0)
+
+// mergeReplaced reverses diff.markReplaced: a scalar is the new value itself, a 1-element array wraps the new value.
+//@ func mergeReplaced
+//@   assigns nothing
+//@   ensures scalarKind(diff) ==> err == nil && result == diff
+//@   ensures !scalarKind(diff) && diff is []interface{} && len(diff.([]interface{})) >= 1 ==> err == nil && result == diff.([]interface{})[0]
+//@   ensures !scalarKind(diff) && !(diff is []interface{} && len(diff.([]interface{})) >= 1) ==> err != nil
+
+// What a field delta produced by markReplaced decodes to: scalars to themselves, everything else to the wrapped value.
+//@ lemma replaced_roundtrip: forall x interface{}, v interface{}, w interface{} :: ((scalarKind(v) && x == v) || (!scalarKind(v) && x is []interface{} && len(x.([]interface{})) == 1 && x.([]interface{})[0] == w)) ==> ((scalarKind(x) && x == v) || (!scalarKind(x) && x is []interface{} && len(x.([]interface{})) >= 1 && x.([]interface{})[0] == w))
